@@ -72,4 +72,5 @@ fn main() {
     c2!(abs_diff_u, I32S, I32S);
     c1!(while_loop, U32S);
     c2!(option_methods, I32S, I32S);
+    c2!(names_clash, I32S, I32S);
 }
